@@ -920,6 +920,13 @@ func main() {
 		"a\x00b", "line1\r\nline2", "\xff\xfe<\xc0\xbc", "+ADw-script+AD4-alert(1)+ADw-/script+AD4-", "</title></style></textarea><b>",
 		"<!-- --><![CDATA[x]]>", "\u2028\u2029", strings.Repeat("A", 3000) + "<b>", "plain message",
 	}
+	// long messages DENSE in characters that escape to several bytes, at both alignments: a size cap or
+	// truncation anywhere in the pipeline then cuts inside an escape sequence / entity (seed C20-16)
+	for _, ch := range []string{"\"", "<", "\\", "\u2028", "\n", "&", "'"} {
+		for pre := 0; pre < 2; pre++ {
+			classic = append(classic, strings.Repeat("a", pre)+strings.Repeat(ch, 1500))
+		}
+	}
 	for _, p := range classic {
 		w.proxyCallback(p)
 		w.proxyXHR(p)
